@@ -67,6 +67,8 @@ KindOps(kind) ==
       [] kind = "type" -> Count("add_type") + Count("build")
       [] OTHER -> 1000
 
+IsCall(s) == Len(s) >= 5 /\ SubSeq(s, 1, 5) = "Call "
+ProbeCalls == {CallStr(C.prog[i].target) : i \in {j \in DOMAIN C.prog : C.prog[j].op = "probe"}}
 Init == cid \in 1 .. Len(Cases) /\ judged = FALSE
 Judge ==
     /\ ~judged /\ judged' = TRUE /\ UNCHANGED cid
@@ -87,5 +89,13 @@ Judge ==
                    Cardinality({x \in DOMAIN C.records : C.records[x].kind = r.kind}) <= KindOps(r.kind),
                    [kind |-> r.kind, content |-> r.content])
             /\ Chk("unknown_tag", r.tag = "" \/ \E i \in DOMAIN C.prog : C.prog[i].tag = r.tag, [kind |-> r.kind, tag |-> r.tag])
+            \* every probe record, tagged or not (lowered copies are untagged), speaks the index space of the output
+            /\ (r.kind \in {"probe", "fprobe"}) =>
+                 \A x \in DOMAIN r.bodyv :
+                    Chk("record_index_space", IsCall(r.bodyv[x]) => r.bodyv[x] \in ProbeCalls,
+                        [kind |-> r.kind, tag |-> r.tag, op |-> r.bodyv[x], expected |-> ProbeCalls])
+       \* ... and so does the module encoded after the report was pulled
+       /\ \A x \in DOMAIN C.calls_after :
+            Chk("encoded_index_space", C.calls_after[x] \in ProbeCalls, [op |-> C.calls_after[x], expected |-> ProbeCalls])
 Spec == Init /\ [][Judge]_vars
 =============================================================================
